@@ -88,7 +88,7 @@ class C17(Check):
     # ------------------------------------------------------------------ program
     def _draw_spec(self, rng, dim, used_grid_names):
         cls = prng.weighted_choice(rng, [("IO", 6), ("EulerianFieldIO", 2), ("CosseratRodIO", 2)])
-        spec = {"cls": cls, "grid": None, "efields": [], "lgrids": []}
+        spec = {"cls": cls, "grid": None, "efields": [], "lgrids": [], "lag_f64": rng.random() < 0.3}
         names = NAMES[:]
         rng.shuffle(names)
         if cls == "CosseratRodIO":
@@ -223,11 +223,12 @@ class C17(Check):
             for f in spec["efields"]:
                 shape = size if f["kind"] == "scalar" else (dim, *size)
                 arrs[("e", f["name"])] = np.full(shape, SENTINEL if fill is None else fill, dtype=real_t)
+        lag_t = np.float64 if spec.get("lag_f64") else real_t  # body arrays are float64 whatever the flow precision
         for gi, g in enumerate(spec["lgrids"]):
-            arrs[("g", gi)] = np.full((dim, g["n"]), SENTINEL, dtype=real_t)
+            arrs[("g", gi)] = np.full((dim, g["n"]), SENTINEL, dtype=lag_t)
             for fi, f in enumerate(g["fields"]):
                 shape = (g["n"],) if f["kind"] == "scalar" else (dim, g["n"])
-                arrs[("l", gi, fi)] = np.full(shape, SENTINEL, dtype=real_t)
+                arrs[("l", gi, fi)] = np.full(shape, SENTINEL, dtype=lag_t)
         return arrs
 
     @staticmethod
@@ -356,7 +357,7 @@ class C17(Check):
         for i in range(nw):
             arrs = self._alloc(specs[i], dim, real_t, fill=0.0)
             for k, a in arrs.items():
-                a[...] = prng.smooth_field(i, a.shape, real_t, 1.0, "init", str(k))
+                a[...] = prng.smooth_field(i, a.shape, a.dtype.type, 1.0, "init", str(k))
             io, extra = self._build(specs[i], dim, real_t, arrs)
             writers.append({"io": io, "arrs": arrs, "extra": extra, "spec": specs[i]})
             if specs[i]["cls"] == "CosseratRodIO":
@@ -582,13 +583,13 @@ class C17(Check):
                 i = op["io"] % nw
                 w = writers[i]
                 for k, a in w["arrs"].items():
-                    a[...] = prng.smooth_field(op["sub"], a.shape, real_t, 1.0, str(k))
+                    a[...] = prng.smooth_field(op["sub"], a.shape, a.dtype.type, 1.0, str(k))
                     if op.get("special"):
                         g = prng.np_rng(op["sub"], "special", str(k))
                         flat = a.reshape(-1)
                         nsp = max(1, flat.size // 3)
                         idx = g.integers(0, flat.size, size=nsp)
-                        flat[idx] = _special_values(real_t, nsp, g)
+                        flat[idx] = _special_values(a.dtype.type, nsp, g)
                         res.probe("special_values")
                 if w["spec"]["cls"] == "CosseratRodIO":
                     rod = w["extra"]["rod"]
